@@ -497,6 +497,176 @@ fn check_hostile_dict(case: &HostileDictCase, ctx: &mut CaseCtx) -> CaseResult {
     Ok(())
 }
 
+// ------------------------------------------------------------------------------------------------
+// format extremes: one compressed block whose three sequence tables are in RLE mode, so that a
+// sequence costs only its extra bits and the block can carry the most sequences / the largest
+// lengths the format can express (up to 98 047 sequences, match lengths up to 131 074, literal
+// lengths up to 131 071, offsets up to 2^32): sums that leave 32 bits, counts at the 1/2/3-byte
+// boundaries, bit streams of exactly the needed length. No mutation of a real frame and no byte
+// level fuzzer gets there (65 KiB of 0xFF behind a 4-byte header).
+
+#[derive(Clone, Debug, Serialize, Deserialize)]
+pub struct ExtremeCase {
+    pub n_seq: u32,
+    /// RLE symbols: literal-length code, offset code, match-length code
+    pub codes: [u8; 3],
+    /// extra bits: 0 all zero, 1 all one, 2 random
+    pub fill: u8,
+    pub seed: u32,
+    pub lits: u32,
+    pub lit_rle: bool,
+    /// history in front of the block: 0 none, 1 raw block of 16 bytes, 2 RLE block of 100 000 bytes
+    pub prefix: u8,
+    pub window_desc: u8,
+    /// cut the sequence count so that the block content stays within 128 KiB
+    pub fit: bool,
+    pub entry: Entry,
+    pub warm: bool,
+}
+
+const LL_BITS: [u8; 36] = [0, 0, 0, 0, 0, 0, 0, 0, 0, 0, 0, 0, 0, 0, 0, 0, 1, 1, 1, 1, 2, 2, 3, 3, 4, 6, 7, 8, 9, 10, 11, 12, 13, 14, 15, 16];
+const ML_BITS: [u8; 53] = [
+    0, 0, 0, 0, 0, 0, 0, 0, 0, 0, 0, 0, 0, 0, 0, 0, 0, 0, 0, 0, 0, 0, 0, 0, 0, 0, 0, 0, 0, 0, 0, 0, 1, 1, 1, 1, 2, 2, 3, 3, 4, 4, 5, 7, 8, 9, 10, 11, 12, 13, 14, 15, 16,
+];
+
+pub fn build_extreme(c: &ExtremeCase) -> Vec<u8> {
+    let mut f = frame::MAGIC.to_le_bytes().to_vec();
+    f.push(0x00);
+    f.push(c.window_desc);
+    match c.prefix % 3 {
+        1 => {
+            f.extend_from_slice(&[(16 << 3) as u8, 0, 0]);
+            f.extend((0..16u8).map(|i| i.wrapping_mul(37)));
+        }
+        2 => {
+            let h = (100_000u32 << 3) | (1 << 1);
+            f.extend_from_slice(&h.to_le_bytes()[..3]);
+            f.push(0x5A);
+        }
+        _ => {}
+    }
+    // literals section
+    let mut body = vec![];
+    let ty = c.lit_rle as u32;
+    let lits = c.lits.min((1 << 20) - 1);
+    if lits < 32 {
+        body.push(((lits << 3) | ty) as u8);
+    } else if lits < 4096 {
+        body.extend_from_slice(&(((lits << 4) | (1 << 2) | ty) as u16).to_le_bytes());
+    } else {
+        body.extend_from_slice(&((lits << 4) | (3 << 2) | ty).to_le_bytes()[..3]);
+    }
+    if c.lit_rle {
+        body.push(0x61);
+    } else {
+        body.extend((0..lits.min(100_000)).map(|i| (i * 13) as u8));
+    }
+    let (llc, ofc, mlc) = (c.codes[0].min(35), c.codes[1].min(31), c.codes[2].min(52));
+    let bps = LL_BITS[llc as usize] as usize + ML_BITS[mlc as usize] as usize + ofc as usize;
+    let mut n = c.n_seq.min(0x7F00 + 0xFFFF) as usize;
+    if c.fit && bps > 0 {
+        let avail = (128 * 1024usize).saturating_sub(body.len() + 3 + 1 + 3 + 1);
+        n = n.min(avail * 8 / bps);
+    }
+    if n < 128 {
+        body.push(n as u8);
+    } else if n < 0x7F00 {
+        body.push(((n >> 8) + 128) as u8);
+        body.push(n as u8);
+    } else {
+        body.push(0xFF);
+        body.extend_from_slice(&((n - 0x7F00) as u16).to_le_bytes());
+    }
+    if n > 0 {
+        body.push(0x54);
+        body.extend_from_slice(&[llc, ofc, mlc]);
+        let total_bits = n * bps;
+        let nbytes = (total_bits + 1 + 7) / 8;
+        let mut r = Rng(c.seed as u64 | 1);
+        let mut stream: Vec<u8> = match c.fill % 3 {
+            0 => vec![0; nbytes],
+            1 => vec![0xFF; nbytes],
+            _ => (0..nbytes).map(|_| r.next() as u8).collect(),
+        };
+        // bits above the data are zero except the end mark
+        let last = nbytes - 1;
+        let used = total_bits - last * 8; // data bits in the last byte (0..=7)
+        stream[last] &= ((1u16 << used) - 1) as u8;
+        stream[last] |= 1 << used;
+        body.extend_from_slice(&stream);
+    }
+    let h = ((body.len().min((1 << 21) - 1) as u32) << 3) | (2 << 1) | 1;
+    f.extend_from_slice(&h.to_le_bytes()[..3]);
+    f.extend_from_slice(&body);
+    f
+}
+
+pub fn extreme_strategy() -> impl Strategy<Value = ExtremeCase> {
+    let n_seq = prop_oneof![
+        3 => prop::sample::select(vec![127u32, 128, 129, 0x7EFF, 0x7F00, 0x7F01, 32_767, 32_768, 32_769, 65_535, 65_536, 65_537, 98_046, 98_047]),
+        2 => 1u32..=98_047,
+        1 => 30_000u32..=70_000,
+    ];
+    let ll = prop_oneof![3 => Just(0u8).boxed(), 1 => (0u8..=35).boxed(), 1 => Just(35u8).boxed(), 1 => (16u8..=24).boxed()];
+    let of = prop_oneof![3 => 0u8..=2, 1 => 0u8..=31, 1 => 20u8..=31];
+    let ml = prop_oneof![3 => Just(52u8).boxed(), 2 => (48u8..=52).boxed(), 1 => (0u8..=52).boxed(), 1 => Just(0u8).boxed()];
+    (
+        (n_seq, (ll, of, ml).prop_map(|(a, b, c)| [a, b, c]), prop_oneof![3 => Just(1u8), 1 => Just(0u8), 2 => Just(2u8)], any::<u32>()),
+        (prop_oneof![3 => 0u32..=40, 1 => 0u32..=5000, 1 => 60_000u32..=140_000, 1 => Just((1u32 << 20) - 1)], prop::bool::weighted(0.3), 0u8..=2, (0u8..=14, 0u8..=7), prop::bool::weighted(0.85)),
+        entry_strategy(),
+        prop::bool::weighted(0.25),
+    )
+        .prop_map(|((n_seq, codes, fill, seed), (lits, lit_rle, prefix, (e, m), fit), entry, warm)| ExtremeCase {
+            n_seq,
+            codes,
+            fill,
+            seed,
+            lits,
+            lit_rle,
+            prefix,
+            window_desc: (e << 3) | m,
+            fit,
+            entry,
+            warm,
+        })
+}
+
+fn check_extreme(case: &ExtremeCase, ctx: &mut CaseCtx) -> CaseResult {
+    let bytes = build_extreme(case);
+    // what the block would regenerate if it were expanded: decides nothing here, but says which
+    // cases sit beyond the limits the decoder has to enforce
+    let (llc, ofc, mlc) = (case.codes[0].min(35) as usize, case.codes[1].min(31), case.codes[2].min(52) as usize);
+    let bps = LL_BITS[llc] as u64 + ML_BITS[mlc] as u64 + ofc as u64;
+    ctx.feat(match case.n_seq {
+        0..=127 => "count:1_byte",
+        128..=0x7EFF => "count:2_bytes",
+        _ => "count:3_bytes",
+    });
+    ctx.feat_if(case.n_seq >= 32_768 && mlc >= 51 && case.fill % 3 == 1, "sum_of_match_lengths:at_or_above_2^32");
+    ctx.feat_if(case.n_seq as u64 * 65_536 >= 1 << 32 && llc == 35, "sum_of_literal_lengths:at_or_above_2^32");
+    ctx.feat_if(ofc >= 30, "offset:code_30_31");
+    ctx.feat_if(bps == 0, "sequences:no_extra_bits_at_all");
+    ctx.feat_if(!case.fit, "block_content:may_exceed_128KiB");
+    ctx.feat(["history:none", "history:raw_16", "history:rle_100000"][(case.prefix % 3) as usize]);
+    // every block here either fits into 128 KiB of output or has to be refused: 2 GiB of heap is far
+    // more than any of these inputs may legitimately need (window limit 100 MiB), and a decoder that
+    // starts expanding gigabytes runs out of memory here the way it would on a small machine
+    let (r, refused) = crate::alloc::ceiling_scope(2 << 30, || std::panic::catch_unwind(std::panic::AssertUnwindSafe(|| ringops::decode_drive::drive_and_reuse(&bytes, &case.entry, None, None, case.warm))));
+    match r {
+        Err(p) => {
+            let msg = p.downcast_ref::<String>().cloned().or_else(|| p.downcast_ref::<&str>().map(|s| s.to_string())).unwrap_or_default();
+            fail!("panic", "decoding panicked: {msg} ({refused} allocation requests refused above 2 GiB of live heap); extreme block {:?}", case);
+        }
+        Ok(Err(e)) => fail!("reuse_after_error_failed", "{e}; extreme block {:?}", case),
+        Ok(Ok(())) => {}
+    }
+    ctx.feat_if(refused > 0, "heap:request_above_2GiB_refused_and_handled");
+    ctx.feat_if(case.warm, "decoder:warm_(a_valid_frame_decoded_before)");
+    ctx.nontrivial = case.n_seq > 0;
+    ctx.set_hash_bytes(&[&bytes, format!("{:?}", case.entry).as_bytes()]);
+    Ok(())
+}
+
 /// Dictionary parser on arbitrary / mutated bytes
 fn check_dict(case: &(DictSpec, Vec<Mutation>, u16), ctx: &mut CaseCtx) -> CaseResult {
     let Ok(b) = case.0.build() else { return Ok(()) };
@@ -520,6 +690,8 @@ pub fn run(eng: &Engine) {
     eng.run_stage("dictionary_parser", nd, || (dict_strategy(), prop::collection::vec(mutation_strategy(), 0..=4), any::<u16>()), check_dict);
     let nh = eng.tier.pick(30_000, 600_000);
     eng.run_stage("hostile_dictionaries", nh, hostile_dict_strategy, check_hostile_dict);
+    let ne = eng.tier.pick(4_000, 60_000);
+    eng.run_stage("format_extremes", ne, extreme_strategy, check_extreme);
     if !eng.has_violation() {
         export_seeds(eng);
     }
@@ -646,7 +818,28 @@ fn export_seeds(eng: &Engine) {
             }
         }
     }
-    eng.set_extra("fuzz_seeds_exported", json!({"decode_any": n, "dict_any": nd, "dir": root}));
+    // format extremes in the decode_any layout: executed once each by the instrumented binary
+    // (overflow checks + debug assertions + ASan), see scripts/extra-C03.sh
+    let _ = std::fs::create_dir_all(root.join("extremes"));
+    let es = extreme_strategy();
+    let mut ne = 0;
+    for i in 0..300u32 {
+        let mut c = es.new_tree(&mut runner).unwrap().current();
+        c.fit = true;
+        if i % 3 == 0 {
+            // the corner every 32-bit sum has to survive: as many maximal match lengths as fit
+            c.codes = [0, (i / 3 % 3) as u8, 52 - (i / 9 % 2) as u8];
+            c.fill = 1;
+            c.n_seq = [32_768, 65_536, 98_047, 40_000][(i / 18 % 4) as usize];
+            c.prefix = 1 + (i / 3 % 2) as u8;
+        }
+        let f = build_extreme(&c);
+        let mut v = vec![(i % 5) as u8, (i * 7) as u8, (i >> 3) as u8, 0, (i % 3) as u8, (i % 4) as u8, 2 | if i % 4 == 1 { 0x80 } else { 0 }, 0];
+        v.extend_from_slice(&f);
+        let _ = std::fs::write(root.join(format!("extremes/e{i:03}")), v);
+        ne += 1;
+    }
+    eng.set_extra("fuzz_seeds_exported", json!({"decode_any": n, "dict_any": nd, "format_extremes": ne, "dir": root}));
 }
 
 pub fn replay(eng: &Engine, stage: &str, case: &Value) -> CaseResult {
@@ -654,6 +847,7 @@ pub fn replay(eng: &Engine, stage: &str, case: &Value) -> CaseResult {
         "mutated_frames" => eng.replay_value(stage, case, check),
         "dictionary_parser" => eng.replay_value(stage, case, check_dict),
         "hostile_dictionaries" => eng.replay_value(stage, case, check_hostile_dict),
+        "format_extremes" => eng.replay_value(stage, case, check_extreme),
         _ => Err(Failure::new("machinery", format!("unknown stage {stage}"))),
     }
 }
